@@ -6,7 +6,11 @@ import (
 	"fmt"
 	"net"
 	"reflect"
+	"strconv"
 	"time"
+
+	"github.com/btcsuite/btcd/chainhash/v2"
+	"github.com/btcsuite/btcd/wire/v2"
 )
 
 var (
@@ -23,6 +27,67 @@ func dump(v any) string {
 	var b bytes.Buffer
 	dumpValue(&b, reflect.ValueOf(v))
 	return b.String()
+}
+
+func writeHex(w *bytes.Buffer, b []byte) {
+	var tmp [128]byte
+	for len(b) > 0 {
+		n := min(len(b), 64)
+		hex.Encode(tmp[:], b[:n])
+		w.Write(tmp[:2*n])
+		b = b[n:]
+	}
+}
+
+func writeInt(w *bytes.Buffer, v int64) {
+	var tmp [24]byte
+	w.Write(strconv.AppendInt(tmp[:0], v, 10))
+}
+
+// dumpTx is a hand-written (reflection-free) rendering of a transaction: large transactions and
+// blocks dominate the cost of comparing values. It reads exported fields only.
+func dumpTx(w *bytes.Buffer, m *wire.MsgTx) {
+	w.WriteString("MsgTx{v=")
+	writeInt(w, int64(m.Version))
+	w.WriteString(";lt=")
+	writeInt(w, int64(m.LockTime))
+	w.WriteString(";in[")
+	writeInt(w, int64(len(m.TxIn)))
+	for _, in := range m.TxIn {
+		if in == nil {
+			w.WriteString(":nil")
+			continue
+		}
+		w.WriteString(":{")
+		writeHex(w, in.PreviousOutPoint.Hash[:])
+		w.WriteByte('.')
+		writeInt(w, int64(in.PreviousOutPoint.Index))
+		w.WriteString(";s=")
+		writeHex(w, in.SignatureScript)
+		w.WriteString(";q=")
+		writeInt(w, int64(in.Sequence))
+		w.WriteString(";w[")
+		writeInt(w, int64(len(in.Witness)))
+		for _, it := range in.Witness {
+			w.WriteByte(':')
+			writeHex(w, it)
+		}
+		w.WriteString("]}")
+	}
+	w.WriteString("];out[")
+	writeInt(w, int64(len(m.TxOut)))
+	for _, o := range m.TxOut {
+		if o == nil {
+			w.WriteString(":nil")
+			continue
+		}
+		w.WriteString(":{")
+		writeInt(w, o.Value)
+		w.WriteByte(';')
+		writeHex(w, o.PkScript)
+		w.WriteByte('}')
+	}
+	w.WriteString("]}")
 }
 
 func dumpValue(w *bytes.Buffer, v reflect.Value) {
@@ -52,6 +117,23 @@ func dumpValue(w *bytes.Buffer, v reflect.Value) {
 			w.WriteString("nil")
 			return
 		}
+		if v.CanInterface() {
+			switch x := v.Interface().(type) {
+			case *wire.MsgTx:
+				dumpTx(w, x)
+				return
+			case *chainhash.Hash:
+				w.WriteByte('h')
+				writeHex(w, x[:])
+				return
+			case *wire.InvVect:
+				w.WriteString("iv")
+				writeInt(w, int64(x.Type))
+				w.WriteByte('.')
+				writeHex(w, x.Hash[:])
+				return
+			}
+		}
 		dumpValue(w, v.Elem())
 	case reflect.Interface:
 		if v.IsNil() {
@@ -79,7 +161,8 @@ func dumpValue(w *bytes.Buffer, v reflect.Value) {
 		w.WriteByte('}')
 	case reflect.Slice:
 		if v.Type().Elem().Kind() == reflect.Uint8 {
-			w.WriteString("x" + hex.EncodeToString(v.Bytes()))
+			w.WriteByte('x')
+			writeHex(w, v.Bytes())
 			return
 		}
 		fmt.Fprintf(w, "[%d:", v.Len())
@@ -92,7 +175,8 @@ func dumpValue(w *bytes.Buffer, v reflect.Value) {
 		if v.Type().Elem().Kind() == reflect.Uint8 {
 			b := make([]byte, v.Len())
 			reflect.Copy(reflect.ValueOf(b), v)
-			w.WriteString("h" + hex.EncodeToString(b))
+			w.WriteByte('h')
+			writeHex(w, b)
 			return
 		}
 		w.WriteByte('[')
